@@ -65,6 +65,9 @@ class SymEnv(flow.Client):
         self.watch = watch
         self.params = _params(fn)
         self.asts: tp.Dict[str, ast.expr] = {}
+        self._free_cache: tp.Dict[int, tp.Tuple[ast.AST, tp.Tuple[str, ...]]] = {}
+        self._norm_cache: tp.Dict[int, tp.Tuple[ast.AST, str]] = {}
+        self._subst_cache: tp.Dict[tp.Tuple[int, tp.Tuple[tp.Tuple[str, str], ...]], ast.expr] = {}
         self.sites: tp.Dict[int, tp.Tuple[ast.AST, tp.Set[World]]] = {}
         self.initial: World = (tuple(sorted((enclosing or {}).items())), frozenset())
         for t in (enclosing or {}).values():
@@ -95,8 +98,37 @@ class SymEnv(flow.Client):
         return frozenset([(tuple(sorted(same.items())), facts)])
 
     # ------------------------------------------------------------------ substitution
+    def _free(self, e: ast.expr) -> tp.Tuple[str, ...]:
+        k = id(e)
+        r = self._free_cache.get(k)
+        if r is None:
+            r = (e, tuple(sorted({x.id for x in ast.walk(e) if isinstance(x, ast.Name)})))
+            self._free_cache[k] = r       # keeps e alive, so the id stays unique
+        return r[1]
+
+    def ntext(self, a: ast.AST) -> str:
+        '''norm() with a per-node cache (substituted trees are shared and never mutated).'''
+        k = id(a)
+        r = self._norm_cache.get(k)
+        if r is None:
+            r = (a, norm(a))
+            self._norm_cache[k] = r
+        return r[1]
+
     def subst(self, e: ast.expr, env: tp.Mapping[str, str]) -> ast.expr:
+        '''e with the bound locals replaced by what they denote.  The result is shared between callers: treat it as immutable.'''
+        key = (id(e), tuple((n, env[n]) for n in self._free(e) if n in env))
+        hit = self._subst_cache.get(key)
+        if hit is not None:
+            return hit
+        out = self._subst(e, env)
+        self._subst_cache[key] = out
+        return out
+
+    def _subst(self, e: ast.expr, env: tp.Mapping[str, str]) -> ast.expr:
         se = self
+        if not any(n in env for n in self._free(e)):
+            return e
 
         class T(ast.NodeTransformer):
             def __init__(self):
@@ -132,14 +164,14 @@ class SymEnv(flow.Client):
                     t = env[node.id]
                     a = se.asts.get(t)
                     if a is not None:
-                        return copy.deepcopy(a)
+                        return a            # shared, immutable by convention
                 return node
         return T().visit(copy.deepcopy(e))
 
     def resolved(self, e: ast.expr, world: World) -> ast.expr:
         '''subst + folding of conditional expressions whose test is a recorded fact of the world.'''
         facts = dict(world[1])
-        a = self.subst(e, dict(world[0]))
+        a = copy.deepcopy(self.subst(e, dict(world[0])))
 
         class F(ast.NodeTransformer):
             def visit_IfExp(self, node):
@@ -153,7 +185,7 @@ class SymEnv(flow.Client):
     def text(self, e: tp.Optional[ast.expr], world: World) -> str:
         if e is None:
             return ''
-        return norm(self.subst(e, dict(world[0])))
+        return self.ntext(self.subst(e, dict(world[0])))
 
     def texts(self, e: tp.Optional[ast.expr], worlds: tp.Iterable[World]) -> tp.Set[str]:
         return {self.text(e, w) for w in worlds}
@@ -162,7 +194,7 @@ class SymEnv(flow.Client):
         return dict(world[1])
 
     def _intern(self, a: ast.expr) -> tp.Optional[str]:
-        t = norm(a)
+        t = self.ntext(a)
         if len(t) > self.MAX_LEN:
             return None
         self.asts.setdefault(t, a)
@@ -255,7 +287,7 @@ class SymEnv(flow.Client):
                     continue        # a constant test: the other branch is infeasible in this world
                 out.add((env_t, facts))
                 continue
-            t = norm(a)
+            t = self.ntext(a)
             if len(t) > 200:
                 if self.keep_fact is not None and not self.keep_fact(t):
                     out.add((env_t, facts))
